@@ -425,6 +425,8 @@ def straddle_files(cap):
         assert len(head) + 3 < cap and len(head) + len(line) > cap and (head + line).find(b"\x00") == nul_at
         res["t/" + name] = head + line + tail
     # small files with the NUL inside the sniffed prefix: before / inside / after the lines a multi-line pattern matches
+    res["e/x0"] = b"a\nab\x00\nb\n"          # named files (outside the traversed directory) for the mixed invocations
+    res["e/x1"] = b"ab\nb\n"
     res["t/m0"] = b"x\nab\x00\nb\na\n"
     res["t/m1"] = b"\x00a\nb\n"
     res["t/m2"] = b"a\nb\nxa\nb\n\x00"
@@ -445,6 +447,9 @@ def cli_round(ctx, rng, cap, stats, big_ok, fixed=None, invocations=None):
             for i in range(rng.randint(2, 5)):
                 name = "t/f%d" % i
                 files[name] = gen_file(rng, cap, big_ok and i < 1) if not (big_ok and i == 0) else gen_file_big(rng, cap)
+        if fixed is None:
+            files["e/x0"] = gen_file(rng, cap, False)       # lives outside the traversed directory: only ever named
+        os.mkdir(os.path.join(d, "e"))
         for name in files:
             open(os.path.join(d, name), "wb").write(files[name])
         names = sorted(files)
@@ -459,9 +464,11 @@ def cli_round(ctx, rng, cap, stats, big_ok, fixed=None, invocations=None):
                 # a traversed / named big file in plain standard mode, both strategies
                 flag, explicit, mm, om, invert, stdin_name = 0, it == 2, it == 1, "std", False, None
             null = rng.random() < 0.25 and om != "json"
+            mix = rng.choice(["first", "last"]) if (rng.random() < 0.2 and not stdin_name) else None
             if invocations:
                 flag, explicit, mm, om = invocations[it][:4]
-                null = len(invocations[it]) > 4 and invocations[it][4]
+                null = len(invocations[it]) > 4 and invocations[it][4] is True
+                mix = invocations[it][5] if len(invocations[it]) > 5 else None
                 invert, stdin_name = False, None
             if om in ML_PATTERNS:       # MultiLine strategy: -U with a pattern that can match the terminator
                 args = ["-U", "-e", ML_PATTERNS[om]]
@@ -483,15 +490,26 @@ def cli_round(ctx, rng, cap, stats, big_ok, fixed=None, invocations=None):
                      "stats": ["--stats"]}[om]
             if om == "json":
                 args = [a for a in args if a not in ("-N", "--no-heading", "-H")]
+            tnames = [n for n in names if n.startswith("t/")]
+            enames = [n for n in names if not n.startswith("t/")]
             if stdin_name:
-                targets, explicit_eff = [(stdin_name, b"<stdin>")], True
+                targets, texp = [(stdin_name, b"<stdin>")], {stdin_name: True}
                 rc, out, err = run_rg(args, d, stdin_path=os.path.join(d, stdin_name))
+            elif mix and enames:
+                # a named file together with a traversed directory, in either order: every file must get the behaviour
+                # its own status entitles it to (one worker searches them all: --sort path)
+                order = (enames, tnames) if mix == "first" else (tnames, enames)
+                targets = [(n, n.encode()) for n in order[0] + order[1]]
+                texp = {n: (n in enames) for n in names}
+                rc, out, err = run_rg(args + (enames + ["t"] if mix == "first" else ["t"] + enames), d)
+                stats["cli_mixed_%s" % mix] += 1
             elif explicit:
-                targets, explicit_eff = [(n, n.encode()) for n in names], True
+                targets, texp = [(n, n.encode()) for n in names], {n: True for n in names}
                 rc, out, err = run_rg(args + names, d)
             else:
-                targets, explicit_eff = [(n, n.encode()) for n in names], False
+                targets, texp = [(n, n.encode()) for n in tnames], {n: False for n in tnames}
                 rc, out, err = run_rg(args + ["t"], d)
+            explicit_eff = sorted(set(texp.values()))
             stats["cli_runs"] += 1
             stats["cli_%s" % om] += 1
             what = dict(kind="cli", args=args, explicit=explicit_eff, stdin=stdin_name,
@@ -509,18 +527,21 @@ def cli_round(ctx, rng, cap, stats, big_ok, fixed=None, invocations=None):
             if flag != 2 and b"\x00" in out:
                 ctx.violation("NUL byte on stdout without --text", what)
                 continue
-            mode, b = model_mode(flag, explicit_eff, bool(stdin_name))
-            expect_mode = 0 if flag == 2 else (2 if (explicit_eff or flag == 1) else 1)
-            if mode != expect_mode:
-                ctx.violation("detection_for (model of from_low_args / is_explicit) disagrees with the property's table",
-                              what, nfi=True)
-            if om in ("count", "count_iz", "cm_iz", "lwo") and mode == 1:
+            tmode = {}
+            b = 0
+            for n, ex in texp.items():
+                tmode[n], b = model_mode(flag, ex, bool(stdin_name))
+                expect_mode = 0 if flag == 2 else (2 if (ex or flag == 1) else 1)
+                if tmode[n] != expect_mode:
+                    ctx.violation("detection_for (model of from_low_args / is_explicit) disagrees with the property's table",
+                                  what, nfi=True)
+            if om in ("count", "count_iz", "cm_iz", "lwo"):
                 # a traversed file with a NUL in the examined portion is dropped: these modes search to the end, so the
                 # roll buffer always meets the NUL; a memory map only surely when it lies in the sniffed prefix
                 for n, pth in targets:
                     content = files[n]
                     nul = content.find(b"\x00")
-                    if nul < 0 or (mm and len(content) > 0 and nul >= cap):
+                    if tmode[n] != 1 or nul < 0 or (mm and len(content) > 0 and nul >= cap):
                         continue
                     if pth + b":" in out or pth + b"\n" in out:
                         w2 = dict(what)
@@ -539,16 +560,17 @@ def cli_round(ctx, rng, cap, stats, big_ok, fixed=None, invocations=None):
                     note = [l for l in mine if l.startswith(pth + b": binary file matches")]
                     w2 = dict(what)
                     w2["file"] = n
-                    if mode == 1 and mine:
+                    if tmode[n] == 1 and mine:
                         ctx.violation("multi-line, quit mode: a file with a NUL in the sniffed prefix is not dropped", w2)
-                    if mode == 2 and (mine != note or len(note) > 1 or (om == "ml_nl" and b"\n" in content and not note and not null)):
+                    if tmode[n] == 2 and (mine != note or len(note) > 1 or (om == "ml_nl" and b"\n" in content and not note and not null)):
                         ctx.violation("multi-line, convert mode: more than the notice (or no notice although `\\n` matches)", w2)
                     stats["cli_ml_binary_files"] += 1
             if om not in MODELLED:
                 continue
             # ---- model prediction, file by file
-            common = dict(mode=mode, b=b, needles=NEEDLES, invert=invert, passthru=(om == "passthru"), null=null)
-            cases = [predict_file(common, files[n], p, mm and not stdin_name, cap, stdin=bool(stdin_name)) for n, p in targets]
+            common = dict(b=b, needles=NEEDLES, invert=invert, passthru=(om == "passthru"), null=null)
+            cases = [predict_file(dict(common, mode=tmode[n]), files[n], p, mm and not stdin_name, cap, stdin=bool(stdin_name))
+                     for n, p in targets]
             mouts = par_model(1401, [model_line(c) for c in cases])
             pred = b""
             ok = True
@@ -584,7 +606,7 @@ def cli_round(ctx, rng, cap, stats, big_ok, fixed=None, invocations=None):
                         ctx.violation("printed lines are not a prefix of the file's matching lines", w2)
                     if not has_nul and (printed != ref_clean or warn or note):
                         ctx.violation("text file: output is not its matching lines", w2)
-                    if mode == 1:
+                    if c["mode"] == 1:
                         if note or (warn and not printed) or (has_nul and printed and len(printed) < len(ref_clean) and not warn):
                             ctx.violation("quit mode: neither dropped nor cut off with a warning", w2)
                         # the roll buffer examines every byte up to the NUL: lines printed => warning
@@ -649,13 +671,16 @@ def run(ctx):
     # fixed shapes around offset DEFAULT_BUFFER_CAPACITY: every mode x strategy, plain / count / -U / context
     # (flag, explicit, mmap, output mode[, --null]); the modes with a model prediction (std, count_iz, lwo, lwm) cost a
     # model run per big file, so each of them appears only where it adds a strategy / detection-mode combination
-    inv = [(0, False, True, "std"), (0, False, False, "std"), (0, True, True, "std"), (1, False, True, "std"),
+    inv = [(0, False, True, "std"), (0, True, True, "std"), (1, False, True, "std"),
            (0, False, True, "multiline"), (0, True, True, "multiline"), (1, False, True, "multiline"), (0, True, False, "multiline"),
            (0, False, True, "C2"), (0, True, True, "A1"), (0, True, True, "json"), (0, False, True, "only"),
            (0, True, True, "ml_nl"), (1, False, False, "ml_nl"), (0, False, True, "ml_dot"), (0, True, False, "ml_anb"),
            (1, False, True, "ml_anb"), (0, False, False, "ml_nl"),
            (0, False, False, "lwo"), (0, False, True, "count_iz"), (0, False, False, "cm_iz"), (0, False, True, "cm_iz"),
-           (0, False, False, "std", True), (1, False, True, "lwm", True), (0, True, False, "A1", True)]
+           (0, False, False, "std", True), (1, False, True, "lwm", True), (0, True, False, "A1", True),
+           # a named file before / after a traversed directory (the first one also stands for the plain traversal, --no-mmap)
+           (0, False, False, "std", False, "first"), (0, False, False, "cm_iz", False, "last"),
+           (0, False, True, "ml_nl", False, "first")]
     cli_round(ctx, rng, default_cap, stats, big_ok=False, fixed=straddle_files(default_cap), invocations=inv)
     for r in range(ctx.count(8)):
         cli_round(ctx, rng, default_cap, stats, big_ok=(r % 3 == 0))
